@@ -41,6 +41,16 @@ type Settings struct {
 	// the frame this Settings was decoded from. It lets the receiver apply the
 	// window delta to open streams only when the value actually changed.
 	hasWindowSize bool
+
+	// A zero value normally means "leave the parameter out". These record that
+	// the value was set on purpose, so that a zero the caller asked for
+	// (SETTINGS_ENABLE_PUSH=0, a header table of 0 octets, no concurrent
+	// streams, an initial window of 0) is transmitted rather than dropped,
+	// which the peer would read as the protocol default.
+	tableSizeSet  bool
+	pushSet       bool
+	maxStreamsSet bool
+	windowSizeSet bool
 }
 
 func (st *Settings) Type() FrameType {
@@ -59,6 +69,10 @@ func (st *Settings) Reset() {
 	st.rawSettings = st.rawSettings[:0]
 	st.ack = false
 	st.hasWindowSize = false
+	st.tableSizeSet = false
+	st.pushSet = false
+	st.maxStreamsSet = false
+	st.windowSizeSet = false
 }
 
 // CopyTo copies st fields to st2.
@@ -72,6 +86,10 @@ func (st *Settings) CopyTo(st2 *Settings) {
 	st2.frameSize = st.frameSize
 	st2.headerSize = st.headerSize
 	st2.hasWindowSize = st.hasWindowSize
+	st2.tableSizeSet = st.tableSizeSet
+	st2.pushSet = st.pushSet
+	st2.maxStreamsSet = st.maxStreamsSet
+	st2.windowSizeSet = st.windowSizeSet
 }
 
 // SetHeaderTableSize sets the maximum size of the header
@@ -80,6 +98,7 @@ func (st *Settings) CopyTo(st2 *Settings) {
 // Default value is 4096.
 func (st *Settings) SetHeaderTableSize(size uint32) {
 	st.tableSize = size
+	st.tableSizeSet = true
 }
 
 // HeaderTableSize returns the maximum size of the header
@@ -96,6 +115,7 @@ func (st *Settings) HeaderTableSize() uint32 {
 // if not the Push Promise will be disabled.
 func (st *Settings) SetPush(value bool) {
 	st.enablePush = value
+	st.pushSet = true
 }
 
 func (st *Settings) Push() bool {
@@ -108,6 +128,7 @@ func (st *Settings) Push() bool {
 // Default value is 100. This value does not have max limit.
 func (st *Settings) SetMaxConcurrentStreams(streams uint32) {
 	st.maxStreams = streams
+	st.maxStreamsSet = true
 }
 
 // MaxConcurrentStreams returns the maximum number of
@@ -125,6 +146,7 @@ func (st *Settings) MaxConcurrentStreams() uint32 {
 // Maximum value is 1 << 31 - 1.
 func (st *Settings) SetMaxWindowSize(size uint32) {
 	st.windowSize = size
+	st.windowSizeSet = true
 }
 
 // MaxWindowSize returns the sender's initial window size
@@ -216,7 +238,7 @@ func (st *Settings) Read(d []byte) error {
 func (st *Settings) Encode() {
 	st.rawSettings = st.rawSettings[:0]
 
-	if st.tableSize != 0 {
+	if st.tableSize != 0 || st.tableSizeSet {
 		st.rawSettings = append(st.rawSettings,
 			byte(HeaderTableSize>>8), byte(HeaderTableSize),
 			byte(st.tableSize>>24), byte(st.tableSize>>16),
@@ -229,9 +251,14 @@ func (st *Settings) Encode() {
 			byte(EnablePush>>8), byte(EnablePush),
 			0, 0, 0, 1,
 		)
+	} else if st.pushSet {
+		st.rawSettings = append(st.rawSettings,
+			byte(EnablePush>>8), byte(EnablePush),
+			0, 0, 0, 0,
+		)
 	}
 
-	if st.maxStreams != 0 {
+	if st.maxStreams != 0 || st.maxStreamsSet {
 		st.rawSettings = append(st.rawSettings,
 			byte(MaxConcurrentStreams>>8), byte(MaxConcurrentStreams),
 			byte(st.maxStreams>>24), byte(st.maxStreams>>16),
@@ -239,7 +266,7 @@ func (st *Settings) Encode() {
 		)
 	}
 
-	if st.windowSize != 0 {
+	if st.windowSize != 0 || st.windowSizeSet {
 		st.rawSettings = append(st.rawSettings,
 			byte(MaxWindowSize>>8), byte(MaxWindowSize),
 			byte(st.windowSize>>24), byte(st.windowSize>>16),
